@@ -102,4 +102,18 @@ func init() {
 			"a path that exceeds the loop bound is replayed natively under a watchdog and reported only if the native run does not return"},
 		Outside: []string{"lexing and grammar", "promptness as wall-clock time", "value lists longer than 3"},
 	}
+
+	ix := "internal/index"
+	registry["C04"] = CheckSpec{Property: "C04",
+		Harnesses: []HarnessSpec{
+			{Pkg: ix, Func: "ZZ_C04_Find", Quick: &Tier{Params: map[string]int{"level": 0, "maxlen": 3}, Samples: 30}, Thorough: &Tier{Params: map[string]int{"level": 1, "maxlen": 4, "exprhi": 400}, Samples: 100},
+				Bounds: "progressVariant.find vs. the real FindSubmatchIndex on the same buffer (both executed symbolically): expressions of ZZExprs(level), buffer of 0..maxlen symbolic bytes, every start offset, both directions"},
+			{Pkg: ix, Func: "ZZ_C04_Find", Desc: "fixed-length + constant suffix expressions, longer buffers", Quick: &Tier{Params: map[string]int{"level": 0, "maxlen": 5, "exprlo": 17, "exprhi": 18}, Samples: 10},
+				Thorough: &Tier{Params: map[string]int{"level": 0, "maxlen": 6, "exprlo": 17, "exprhi": 18}, Samples: 10}, Bounds: "[a-c]x, buffers up to 5 (6) bytes: decoy suffixes before the real match"},
+			{Pkg: ix, Func: "ZZ_C04_Find", Desc: "fixed-length + constant suffix, case folded class", Quick: &Tier{Params: map[string]int{"level": 0, "maxlen": 4, "exprlo": 50, "exprhi": 51}, Samples: 10},
+				Bounds: "(?i)[a-b]c, buffers up to 4 bytes"},
+		},
+		Assumptions: []string{"oracle = the real rsc.io/binaryregexp matcher run on buffers[dir][offset:] (the plain scan)", "sync.Pool modelled as always empty"},
+		Outside: []string{"buffers longer than maxlen", "variables bound by captures / sub-query variable substitution", "expressions outside the enumerated grammar"},
+	}
 }
